@@ -90,6 +90,20 @@ def check(repo, tier="quick"):
     ce_idx = [i for i, ns in enumerate(hnames) if "ConformanceError" in ns]
     ok = len(gen_idx) == 1 and gen_idx[0] == len(hnames) - 1 and len(ce_idx) == 1 and ce_idx[0] < gen_idx[0]
     res.check(ok, "C25.a", "run:handler-order", where, "handlers are %s: ConformanceError must be handled before the generic handler, which must be last" % flat, by=" < ".join(flat))
+    # the validator asks the input file for its position throughout parsing (decoder.io.tell -> file.tell()): whether
+    # the file can answer (a pipe cannot: OSError) must be found out where file errors are handled, before the main try
+    open_try = None
+    for n in ast.walk(run):
+        if isinstance(n, ast.Try) and n is not main_try and n.lineno < main_try.lineno and any(isinstance(c, ast.Call) and dotted(c.func) == "open" for b in n.body for c in ast.walk(b)):
+            open_try = n
+    probed = False
+    if open_try is not None:
+        for b in open_try.body:
+            for c in ast.walk(b):
+                if isinstance(c, ast.Call) and norm(c.func) in ("self._file.tell", "self._file.seekable", "self._file.seek"):
+                    probed = True
+        probed = probed and all(any(isinstance(r, ast.Return) and isinstance(r.value, ast.Constant) and r.value.value == 1 for r in ast.walk(h)) for h in open_try.handlers)
+    res.check(probed, "C25.a", "run:input-position-probed-with-the-file-errors", where, "run() does not ask the freshly opened input for its position (tell/seekable) inside the try block whose handler reports file errors with status 1: for a non-seekable input (a pipe, /dev/stdin) the first tell() fails inside parse_stream and lands in the generic handler -- status 3", by="self._file.tell() next to open(), handler returns 1")
     tgt = repo.resolve(m.name, "ConformanceError")
     ok = tgt is not None and getattr(tgt, "kind", None) == "class" and tgt.mod.endswith("decoder.exceptions")
     res.check(ok, "C25.a", "run:ConformanceError-is-the-decoder's", where, "the name ConformanceError in the validator script must resolve to decoder.exceptions.ConformanceError", by="resolved through the decoder package")
